@@ -7,7 +7,7 @@ from harness.core import enc, dec, guarded
 PID = "C05"
 D = os.path.join(tlc.SPEC_DIR, "data")
 ENV = {"C05_URLS": D + "/c05urls.json", "NORM_DATA": D + "/normdata.json", "BASES_DATA": D + "/bases.json", "URL_DATA": D + "/urlgen.json"}
-NURLS = 55
+NURLS = len(__import__("json").load(open(D + "/c05urls.json"))["urls"])
 KW = {"sort": "sort_query", "auth": "strip_authentication", "ts": "strip_trailing_slash", "index": "strip_index",
       "proto": "strip_protocol", "sub": "strip_irrelevant_subdomains", "amp": "normalize_amp", "fix": "fix_common_mistakes",
       "quoted": "quoted"}
